@@ -44,3 +44,8 @@ claim("C19",
       "Decides for both servers that every session spawn is preceded by wg.Add in the spawning goroutine with a deferred Done in the spawned function, that Drain waits and main reaches both Drains and Join on every path, that the listener is closed on every path after ctx.Done() and the accept loop returns quietly on shutdown, that no hub channel producers send on is closed at cancellation, and that the retention scanner observes ctx at each blocking point and closes its shutdown channel on every exit. Timing and TCP behaviour are not decided.",
       "Trusts go/ssa, sync.WaitGroup semantics.",
       "DESIGN.md section 4, C19")
+claim("C04",
+      "must-sanitise value flow (case normaliser on every path from the address parameter to a returned name), emptiness domain over SSA strings with dominating guards and validator summaries, single-writer and who-feeds rules for the naming authority",
+      "Decides that delivery and every anchored read interface compute the mailbox name with the same function (one authority), that every flow from the input address to a successfully returned name passes a case normaliser, and that successful results (and the base name of the local part) are provably non-empty. Necessary conditions of canonical naming for all inputs; idempotence over all strings and quoting corners are not decided.",
+      "Trusts go/ssa; treats strings.ToLower/ToUpper/Map as case normalisers.",
+      "DESIGN.md section 4, C04")
